@@ -148,7 +148,7 @@ func (f *rawRecord) UnmarshalRecord([]byte) error   { return nil }
 
 func TestCheck(t *testing.T) {
 	r := vp.New("C18", "exploration",
-		"requests: 48 ingest argument combinations (metadata of 0, 40, 1000 and the maximal 1024 bytes; context ID empty and of the maximal 64 bytes) plus 10 with unusual address strings (non-canonical multiaddr spellings, non-multiaddr strings, repeats, none) and register requests with 1..3 addresses; every (signing key, named provider) pair over 4 key types with named = signer, another identity of the same type, and an identity of another type; for sealed envelopes of each key type: every single-bit flip, field-level replacement of key / payload type / payload / signature, envelopes sealed for another domain or replayed to the other reader. Non-trivial: every case except the unaltered own-key request. Distinct = distinct (reader, request, signer, named, alteration).",
+		"requests: 48 ingest argument combinations (metadata of 0, 40, 1000 and the maximal 1024 bytes; context ID empty and of the maximal 64 bytes) plus 10 with unusual address strings (non-canonical multiaddr spellings, non-multiaddr strings, repeats, none), register requests with 1..3 addresses, and both kinds with addresses that carry a /p2p component naming the request's own provider, its signer or a third identity (4 forms, alone and next to a plain address); every (signing key, named provider) pair over 4 key types with named = signer, another identity of the same type, and an identity of another type; for sealed envelopes of each key type: every single-bit flip, field-level replacement of key / payload type / payload / signature, envelopes sealed for another domain or replayed to the other reader. Non-trivial: every case except the unaltered own-key request. Distinct = distinct (reader, request, signer, named, alteration).",
 		"accept/reject is judged semantically: an altered byte string that decodes to the same (key, payload type, payload, signature) as the original is not counted as an alteration",
 		"keys: two identities per key type; RSA 2048",
 	)
@@ -275,6 +275,36 @@ func TestCheck(t *testing.T) {
 					continue
 				}
 				expect(key, "register", data, nm.label == "self", nm.id.ID, fmt.Sprintf("addrs=%v", addrs), "foreign-signer", "it was sealed by another identity than the provider it names")
+			}
+			// addresses that are built from identities: each address form closed by
+			// (or consisting of) a /p2p/ component that names the provider of the
+			// same request, its signer, or a third identity; alone and next to a
+			// plain address, in both orders
+			for wi, who := range []peer.ID{nm.id.ID, signer.ID, fixture.Key(kt, 1).ID, fixture.Key("ed25519", 1).ID} {
+				forms := []string{"/ip4/1.2.3.4/tcp/1/p2p/" + who.String(), "/p2p/" + who.String(), "/ip4/1.2.3.4/tcp/1/p2p/" + who.String() + "/p2p-circuit", "/dns4/example.com/tcp/443/https/p2p/" + who.String()}
+				for fi, form := range forms {
+					for li, addrs := range [][]string{{form}, {"/ip4/9.9.9.9/tcp/9", form}, {form, "/ip4/9.9.9.9/tcp/9"}, {form, form}} {
+						key := fmt.Sprintf("pair|identity-addresses|%s|%s|who%d|form%d|list%d", kt, nm.label, wi, fi, li)
+						if !r.Mine(key) {
+							continue
+						}
+						r.Eval(key, true)
+						a := ia[5]
+						want := ingestFields(&model.IngestRequest{Multihash: a.mh, ContextID: a.ctx, Metadata: a.md, Addrs: addrs})
+						data, err := model.MakeIngestRequest(nm.id.ID, signer.Priv, a.mh, a.ctx, a.md, append([]string{}, addrs...))
+						if err != nil {
+							r.Violation("ingest:make-error", key, err.Error(), nil)
+						} else {
+							expect(key, "ingest", data, nm.label == "self", nm.id.ID, want, "foreign-signer", "it was sealed by "+signer.ID.String()+", not by the provider it names")
+						}
+						data, err = model.MakeRegisterRequest(nm.id.ID, signer.Priv, append([]string{}, addrs...))
+						if err != nil {
+							r.Violation("register:make-error", key, err.Error(), nil)
+						} else {
+							expect(key, "register", data, nm.label == "self", nm.id.ID, fmt.Sprintf("addrs=%v", addrs), "foreign-signer", "it was sealed by another identity than the provider it names")
+						}
+					}
+				}
 			}
 			// address lists with an unparseable entry at every position: the
 			// constructor refuses, or what it builds reads back with every address
